@@ -154,6 +154,11 @@ class Ctx:
             print('VIOLATION property=%s replay=%s no-failing-input-found' % (pid, path))
             print('  %s: %s' % (d['tie'], d['what'][:400]))
             rc = 1
+        if rc == 0:     # a replay left by an earlier run on a different tree would be misleading
+            try:
+                os.remove(os.path.join(rdir, '%s-%s-%d.json' % (pid, self.tier, self.seed)))
+            except OSError:
+                pass
         cov = dict(self.coverage)
         nob = len(self.obligations) + len(self.proof_errors)
         cov.setdefault('obligations', max(nob, 0))
